@@ -1551,7 +1551,7 @@ class Key(object):
         :return str: Base58 or Bech32 encoded address
         """
         if (self.compressed and compressed is None) or compressed:
-            data = self.public_byte
+            data = self.public_compressed_byte
             self.compressed = True
         else:
             data = self.public_uncompressed_byte
